@@ -78,6 +78,17 @@ def build(rng, case):
     extras["improper"] = []
     kinds = {k: int(rng.integers(0, 5)) for k in atomsgen.KNAMES}
     a = atomsgen.gen_atoms(rng, n, tag="s", cell=cellm, kinds=kinds, tables={k: False for k in atomsgen.KNAMES}, extras=extras, pair=False)
+    if case["s"] % 4 == 3:
+        # extra columns holding numbers as a program building the structure leaves them (0, 0.0, 1, 2.5, -3 - not their text)
+        for kind in ("atom", "bond", "angle", "dihedral"):
+            xf = getattr(a, "extra_%s_fields" % kind)
+            if len(getattr(a, "extra_%s_labels" % kind)) and len(xf):
+                arr = np.array(xf, dtype=object)
+                vals = [0, 0.0, 1, 2.5, -3, 0]
+                for r in range(arr.shape[0]):
+                    arr[r, int(rng.integers(arr.shape[1]))] = vals[(r + int(rng.integers(2))) % len(vals)]
+                setattr(a, "extra_%s_fields" % kind, arr)
+                case["_numeric_extras"] = True
     if case["where"] == "inside":
         f = rng.uniform(0.01, 0.99, (n, 3))
     elif case["where"] == "outside":
@@ -315,6 +326,8 @@ def run_case(case, ctx):
     st.seen("flag_form", ["bool", "bool", "numpy.bool_", "int"][len(a) % 4])
     if case.get("_whole_number_cell"):
         st.count("structures_with_a_cell_of_whole_numbers")
+    if case.get("_numeric_extras"):
+        st.count("structures_with_numbers_in_extra_columns")
     if case.get("many_atoms"):
         # only the round trip itself for the big structure (the second readers and reading variants are quadratic in the atom count)
         t2 = save(b, mode)
@@ -488,6 +501,8 @@ def run_case(case, ctx):
 
 def requirements(stats, tier):
     need = []
+    if stats.get("structures_with_numbers_in_extra_columns") < (10 if tier == "quick" else 2000):
+        need.append("structures whose extra columns hold numbers (0, 0.0, 2.5 ...): %d" % stats.get("structures_with_numbers_in_extra_columns"))
     if stats.get("structures_with_a_cell_of_whole_numbers") < (10 if tier == "quick" else 2000):
         need.append("structures whose cell is typed with whole numbers: %d" % stats.get("structures_with_a_cell_of_whole_numbers"))
     if stats.get("files_read_back") < (180 if tier == "quick" else 50000):
